@@ -17,10 +17,11 @@ const (
 	FailPanicFn
 	FailMissingFn
 	FailReadLocal // reads a local that only other rules assign (C15)
+	FailCustom    // Rule.Custom holds the faulty statements (C09 catalog)
 	nFailKinds
 )
 
-var failNames = []string{"none", "div0", "int+string", "missing-var", "cmp-type", "panic-fn", "missing-fn", "read-foreign-local"}
+var failNames = []string{"none", "div0", "int+string", "missing-var", "cmp-type", "panic-fn", "missing-fn", "read-foreign-local", "custom"}
 
 const (
 	RetNone = iota
@@ -44,6 +45,7 @@ type Rule struct {
 	RetShape     int    `json:"ret_shape,omitempty"` // 0 top level, 1 inside if, 2 inside for+if, 3 inside forRange, 4 if/else-if chain
 	SetStop      bool   `json:"set_stop,omitempty"`
 	Version      int64  `json:"version,omitempty"` // unique tag of this compilation of the rule (C07/C08/C16)
+	Custom       string `json:"custom,omitempty"`  // FailCustom: statements that must fault (they contain their own trailing en(id) where legal)
 }
 
 func (r *Rule) Fails() bool { return r.Fail != FailNone }
@@ -88,12 +90,12 @@ type GenOpts struct {
 
 var nameForms = []func(i int, r *rand.Rand) string{
 	func(i int, r *rand.Rand) string { return fmt.Sprintf("r%d", i) },
-	func(i int, r *rand.Rand) string { return fmt.Sprintf("%d", 100+i) },                // digit-only
-	func(i int, r *rand.Rand) string { return fmt.Sprintf("rule-%d.x", i) },             // punctuation
-	func(i int, r *rand.Rand) string { return fmt.Sprintf("Rule %d of set", i) },        // spaces
-	func(i int, r *rand.Rand) string { return fmt.Sprintf("规则%d", i) },                  // non-ASCII
-	func(i int, r *rand.Rand) string { return fmt.Sprintf("end_%d", i) },                // keyword-like
-	func(i int, r *rand.Rand) string { return fmt.Sprintf("-%d", i+1) },                 // looks like a negative number
+	func(i int, r *rand.Rand) string { return fmt.Sprintf("%d", 100+i) },         // digit-only
+	func(i int, r *rand.Rand) string { return fmt.Sprintf("rule-%d.x", i) },      // punctuation
+	func(i int, r *rand.Rand) string { return fmt.Sprintf("Rule %d of set", i) }, // spaces
+	func(i int, r *rand.Rand) string { return fmt.Sprintf("规则%d", i) },           // non-ASCII
+	func(i int, r *rand.Rand) string { return fmt.Sprintf("end_%d", i) },         // keyword-like
+	func(i int, r *rand.Rand) string { return fmt.Sprintf("-%d", i+1) },          // looks like a negative number
 	func(i int, r *rand.Rand) string { return fmt.Sprintf("r%d", i) },
 	func(i int, r *rand.Rand) string { return fmt.Sprintf("r%d", i) },
 }
@@ -216,6 +218,10 @@ func (ru *Rule) Body(r *rand.Rand) string {
 	}
 	if ru.SetStop {
 		fmt.Fprintf(&b, "stag.StopTag = true%s", ws(r))
+	}
+	if ru.Fail == FailCustom {
+		fmt.Fprintf(&b, "fl(%d)%s%s%s", id, ws(r), ru.Custom, ws(r))
+		return b.String()
 	}
 	if ru.Fails() && !ru.FailInReturn {
 		b.WriteString(failStmt(ru.Fail, id))
